@@ -187,6 +187,7 @@ func main() {
 		}
 	}
 	fmt.Printf("total %.1fs\n", time.Since(t0).Seconds())
+	os.RemoveAll(dir)
 	os.Exit(exit)
 }
 
